@@ -49,3 +49,10 @@ Theorem C08_lookup_is_source_lookup : forall s ids key nested,
   _find_attrpath_root nat (fun _ => true) (name_of s) (nested_of s) ids key = find_root s ids key.
 Proof. exact (fun s ids key nested => conj (find_binding_refines s ids key) (conj (find_named_refines s ids key nested) (find_root_refines s ids key))). Qed.
 Print Assumptions C08_lookup_is_source_lookup.
+
+(* through explicit nested sets (E.EditDeep, mirrors the repair 99873d2): a refused removal leaves the whole state — heap, root and every inner set
+   the path was re-targeted at — exactly as it was, for every fuel, state and path *)
+From E Require Import EditDeep.
+Theorem C08_rm_atomic_deep : forall f s segs, failed (snd (m_rm_deep f s segs)) -> fst (m_rm_deep f s segs) = s.
+Proof. exact rm_deep_atomic. Qed.
+Print Assumptions C08_rm_atomic_deep.
